@@ -46,6 +46,16 @@ _p('C15', 'other', 'merge splice law; in: dispatch and numeric membership; bound
 _p('C16', 'other', 'cat = concatenation of string forms (bounded operands); substr safety unbounded (Verus), output by character (bounded shapes).')
 
 
+# C01 (totality) is carried by obligations of many functions; its *quick* tier runs this curated subset of the Kani
+# obligations tagged C01 (every Verus unit tagged C01 always runs); the thorough tier runs all of them.
+QUICK_ONLY = {
+    'C01': r'^(C10\.to_number_value\.exact|C01\.abstract_plus\..*|C11\.get\.all_i64|C10\.abstract_minus|C10\.abstract_(div|mod)\.errors|'
+           r'C10\.to_negative|C10\.to_number\.(null|bool|num|str|arr)|C10\.parse_float\.(num|str|arr|true)|C06\.truthy\.(number|string0|string3)|'
+           r'C02\.op_from_map\..*|C07\.abstract_eq\.(num_num|bool_str|num_arr|str_obj|null_num)|C08\.strict_eq\.(num_num|str_str|arr_obj)|'
+           r'C16\.cat\.(str_num|none)|C15\.in\.(number_in_array|str_in_str|num_in_str|null_in_obj)|C11\.var\.(0\.str\.p0|1\.bool\.p0|2\.int\.p8)|'
+           r'C10\.fold\.(add|max)\.(0\.empty|1\.N|2\.NN)|C15\.merge\.(none|pair))$',
+}
+
 # properties registered in MANIFEST.json (the others are listed under not_applicable with the reason below)
 CLAIMED = ['C02', 'C03', 'C06', 'C07', 'C08', 'C09', 'C10', 'C11']
 NOT_YET = {}
